@@ -702,7 +702,46 @@ def correspond(chk, exe, oracle, infos, lines):
         if wrong:
             bad.append((c, ','.join(e for e, _ in wrong), '; '.join('%s: %s' % x for x in wrong)))
     chk.dist('undefined_skipped', 'n', len(cases) - len(runnable))
+    undefined_agreement(chk, exe, [c for c in cases if c['exp'] is None])
     return bad
+
+
+def undefined_agreement(chk, exe, cases):
+    """MEASUREMENT ONLY (no verdict): cases whose result MIR.md leaves undefined (DocSpec = None: shift counts >= width,
+    float -> integer conversions out of range) are still run, and whether the five engines agree is recorded in the
+    evidence.  Instructions that may trap (division / remainder by zero, INT_MIN / -1) are left out."""
+    todo = [c for c in cases if not re.match(r'^U?(DIV|MOD)S?$', c['op']) and not c.get('press') and not G.is_special(c)
+            and not c.get('pre') and not c.get('post')][:4000]
+    if not todo:
+        return
+    try:
+        res = run_harness(exe, [c['line'] for c in todo])
+    except Exception:
+        return
+    agree = differ = crashed = 0
+    for c in todo:
+        r = res.get(c['id']) or {}
+        if 'crash' in r or not all(r.get(e) for e in ENGINES):
+            crashed += 1
+            continue
+        mask = c['info'].mask
+        obs = [G.parse_obs(r[e]) for e in ENGINES]
+        if any(o is None for o in obs):
+            crashed += 1
+            continue
+        key = lambda o: (o[0] & mask if c['info'].res == 'i' and c['dst']['kind'] not in ('m', 'X') else 0,
+                         tuple(sorted((k, v) for k, v in o[1].items()
+                                      if not (mask == 0xffffffff and (100 <= k < 104 or 196 <= k < 200 or 132 <= k < 136)))))
+        if len(set(key(o) for o in obs)) == 1:
+            agree += 1
+        else:
+            differ += 1
+            chk.cov.setdefault('undefined_engine_disagreements', [])
+            if len(chk.cov['undefined_engine_disagreements']) < 6:
+                chk.cov['undefined_engine_disagreements'].append('%s -> %s' % (c['line'], {e: r[e] for e in ENGINES}))
+            chk.dist('undefined_disagree_by_opcode', c['op'])
+    chk.cov['undefined_cases_run'] = dict(note='results MIR.md leaves undefined: engines compared with each other for the record only',
+                                          agree=agree, differ=differ, no_result=crashed)
 
 
 def report(chk, bad, limit=12):
